@@ -563,6 +563,84 @@ def async_unknown(docs):
     return unknown
 
 
+
+# --------------------------------------------------------------- LockLessMultiReadPipe: how slots are claimed
+def pipe_facts(docs):
+    """per claim site, every access to m_Flags[...]:  CAS(swapTo, compareWith) / plain store / plain load.
+       reader-side claims (WriterTryReadFront, ReaderTryReadBack): ClaimCAS iff the ONLY accesses are one
+       AtomicCompareAndSwap(&m_Flags[i], FLAG_INVALID, FLAG_CAN_READ) and one plain store of FLAG_CAN_WRITE (slot handed back
+       after the copy); ClaimCheckThenStore if the slot is claimed by a plain load and a plain store of FLAG_INVALID; else ClaimUnknown.
+       WriterTryWriteFront (single writer): WGNotCanWrite iff one plain load compared `!= FLAG_CAN_WRITE` guards an early
+       `return false` and one plain store of FLAG_CAN_READ publishes; else WGOther."""
+    def method(name):
+        best = None
+        for d in docs:
+            for n, ps in astutil.walk(d):
+                if n.get("kind") == "CXXMethodDecl" and n.get("name") == name and any(c.get("kind") == "CompoundStmt" for c in kids(n)):
+                    best = n          # the last one is the instantiation
+        return best
+
+    def is_flags(n):
+        while n.get("kind") in ("ImplicitCastExpr", "ParenExpr", "UnaryOperator") and kids(n):
+            n = kids(n)[0]
+        return n.get("kind") == "ArraySubscriptExpr" and any(x.get("kind") == "MemberExpr" and x.get("name") == "m_Flags" for x, _ in astutil.walk(n))
+
+    def const_name(n):
+        for x, _ in astutil.walk(n):
+            nm = (x.get("referencedDecl") or {}).get("name", "")
+            if nm.startswith("FLAG_"):
+                return nm
+        return None
+
+    def accesses(fn):
+        cas, stores, loads, covered = [], [], [], set()
+        for x, _ in astutil.walk(fn):
+            if x.get("kind") == "CallExpr":
+                k = kids(x)
+                callee = [(y.get("referencedDecl") or {}).get("name") or (y.get("name") if y.get("kind") == "UnresolvedLookupExpr" else None)
+                          for y, _ in astutil.walk(k[0])] if k else []
+                if "AtomicCompareAndSwap" in callee and len(k) == 4 and is_flags(k[1]):
+                    cas.append((const_name(k[2]), const_name(k[3])))
+                    for y, _ in astutil.walk(x):
+                        covered.add(id(y))
+            if x.get("kind") == "BinaryOperator" and x.get("opcode") == "=" and is_flags(kids(x)[0]):
+                stores.append(const_name(kids(x)[1]))
+                for y, _ in astutil.walk(kids(x)[0]):
+                    covered.add(id(y))
+        cmp_loads = []
+        for x, ps in astutil.walk(fn):
+            if x.get("kind") == "MemberExpr" and x.get("name") == "m_Flags" and id(x) not in covered:
+                # a plain load; find the comparison it feeds (if any)
+                cmpn = None
+                for par in reversed(ps):
+                    if par.get("kind") == "BinaryOperator" and par.get("opcode") in ("==", "!="):
+                        cmpn = (par.get("opcode"), const_name(par))
+                        break
+                    if par.get("kind") in ("CompoundStmt", "IfStmt", "WhileStmt", "DeclStmt"):
+                        break
+                loads.append(cmpn)
+        return cas, stores, loads
+
+    out = {}
+    for name in ("WriterTryReadFront", "ReaderTryReadBack"):
+        fn = method(name)
+        if fn is None:
+            raise FactError("LockLessMultiReadPipe::%s not found" % name)
+        cas, stores, loads = accesses(fn)
+        if cas == [("FLAG_INVALID", "FLAG_CAN_READ")] and stores == ["FLAG_CAN_WRITE"] and not loads:
+            out[name] = "ClaimCAS"
+        elif not cas and "FLAG_INVALID" in stores and loads:
+            out[name] = "ClaimCheckThenStore"
+        else:
+            out[name] = "ClaimUnknown"
+    fn = method("WriterTryWriteFront")
+    if fn is None:
+        raise FactError("LockLessMultiReadPipe::WriterTryWriteFront not found")
+    cas, stores, loads = accesses(fn)
+    out["WriterTryWriteFront"] = "WGNotCanWrite" if (not cas and stores == ["FLAG_CAN_READ"] and loads == [("!=", "FLAG_CAN_WRITE")]) else "WGOther"
+    return out
+
+
 def coq_list(xs):
     return "[" + "; ".join(xs) + "]"
 
@@ -591,6 +669,9 @@ def main():
             gdocs = {k: f.result() for k, f in futs.items()}
         gdocs["int"] = docs
         glue = {k: glue_facts(gdocs[k], k) for k in ("tbb", "omp", "int", "dbg")}
+        pdocs = dump(repo, inc, os.path.join(repo, "rkcommon/tasking/detail/enkiTS/TaskScheduler.cpp"), "enki::LockLessMultiReadPipe",
+                     os.path.join(work, "c02_pipe.json"))
+        pipe = pipe_facts(pdocs)
         a_unknown = async_unknown(docs)
     except FactError as e:
         sys.stderr.write("gen_facts: %s\n" % e)
@@ -615,6 +696,10 @@ Definition impl_ctor_src : backend -> list sstmt := fun b => match b with BTbb =
 Definition impl_wait_src : backend -> list sstmt := fun b => match b with BTbb => %s | BOmp => %s | BInt => %s | BDbg => %s end.
 (* statements of async() outside the recognised ones *)
 Definition async_unknown_stmts_src : nat := %s.
+(* LockLessMultiReadPipe: how WriterTryReadFront (owner) and ReaderTryReadBack (thief) claim a slot; WriterTryWriteFront's full test *)
+Definition pipe_front_claim_src : claim := %s.
+Definition pipe_back_claim_src : claim := %s.
+Definition pipe_write_guard_src : wguard := %s.
 
 (* async(): events on the heap packaged_task before / after schedule(closure), and in the closure *)
 Definition async_pre_src : list aev := %s.
@@ -632,12 +717,13 @@ Definition wait_fenced_src : bool := %s.
        coq_list(glue["tbb"][0]), coq_list(glue["omp"][0]), coq_list(glue["int"][0]), coq_list(glue["dbg"][0]),
        coq_list(glue["tbb"][1]), coq_list(glue["omp"][1]), coq_list(glue["int"][1]), coq_list(glue["dbg"][1]),
        coq_list(glue["tbb"][2]), coq_list(glue["omp"][2]), coq_list(glue["int"][2]), coq_list(glue["dbg"][2]), a_unknown,
+       pipe["WriterTryReadFront"], pipe["ReaderTryReadBack"], pipe["WriterTryWriteFront"],
        coq_list(pre), coq_list(post), coq_list(clos), coq_list(xs), seq, b(dec_after), b(wake_fenced), b(wait_fenced))
     old = open(out).read() if os.path.exists(out) else None
     if old != txt:
         open(out, "w").write(txt)
-    print("facts: order=%s task=%s get=%s dtor_waits=%s atomic=%s | async pre=%s post=%s body=%s | exec_range=%s tryrun=%s wake_fenced=%s wait_fenced=%s | flag stores=%s loads=%s | glue=%s async_unknown=%s"
-          % (order, task, kind, dtor_waits, flag_atomic, pre, post, clos, xs, seq, wake_fenced, wait_fenced, st_orders, ld_orders, glue, a_unknown))
+    print("facts: order=%s task=%s get=%s dtor_waits=%s atomic=%s | async pre=%s post=%s body=%s | exec_range=%s tryrun=%s wake_fenced=%s wait_fenced=%s | flag stores=%s loads=%s | glue=%s async_unknown=%s pipe=%s"
+          % (order, task, kind, dtor_waits, flag_atomic, pre, post, clos, xs, seq, wake_fenced, wait_fenced, st_orders, ld_orders, glue, a_unknown, pipe))
 
 
 if __name__ == "__main__":
